@@ -2,7 +2,7 @@ SPEC = {
     "id": "C05",
     "harness": "c05",
     "n": {"quick": 200, "thorough": 3000},
-    "shard": 24,
+    "shard": 14,
     "tie_codes": (),      # every code of Check/C05.v is an observable the property determines: always a failing input
 
     "harness_args": lambda tier: ["-per", "14"],
@@ -16,14 +16,15 @@ SPEC = {
     "codes": {"1": "match result (bit mask over all nodes in document order) differs from the model", "3": "specificity differs", "4": "pseudo-element differs",
               "5": "ParseGroup disagrees with the parser model (error vs success, or structure)", "6": "String() differs from the printer model",
               "7": "String() does not re-parse to an equivalent selector", "8": "the implementation panicked", "9": "malformed case, or the dumped tree violates the invariants assumed of html.Parse",
+              "11": "Specificity.Less / Specificity.Add on a pair of triples differs from the lexicographic order / the column-wise sum (C05_specificity_less_lex)",
               "10": "a parsed selector is outside SelRoundtrip.normal_group, or the model's print/parse round trip changes it",
               "20": "known deviation from Selectors 4 still present: :has() argument with a combinator is not anchored below the :has element (C05_has_relative_refuted)",
               "21": "known deviation from Selectors 4 still present: [a^=v] never matches a blank attribute value (C05_blank_attr_refuted)"},
     "theorems_for_kind": {},
-    "rule": "SplitMix64-seeded: random HTML documents (<= 34 generated nodes, 6-tag pool + form controls, text/comment nodes between elements, attributes with empty/blank/multi-space/mixed-case values, doctype/comment before <html>) parsed by x/net/html; 12 selector groups per document generated from the grammar to depth 3 (a in [-4,4], b in [-6,6], all attribute operators with/without i, :not/:is/:has/:haschild, all combinators, pseudo-elements), one document in five with the boundary stream (escapes, comments, random damage => parse errors); corpus first; thorough adds the exhaustive small-bounds stream; non-trivial = some selector matches some but not all elements",
+    "rule": "SplitMix64-seeded: 6 x 48 pairs of specificity triples (columns around 10, 100, 256, 1000, 65536) given to Specificity.Less/Add; random HTML documents (<= 34 generated nodes; per document a tag profile: HTML tags only / one element in three unknown to the atom table (custom elements) / mostly 3 unknown names; mixed-case tag spelling; 6-tag pool + form controls, text/comment nodes between elements, attributes with empty/blank/multi-space/mixed-case values, doctype/comment before <html>) parsed by x/net/html; 14 selector groups per document: 7 guided by a real element (its name/attributes/actual sibling index, a = 0 one time in five), 1 with competing :is/:not/:has arguments of prescribed specificity (a column of 9..13, rarely ~20/~100/~256, against one unit in a more significant column), 1 with relative pseudo-classes nested to depth 0..3 and a pseudo-element at ONE position of the derivation (3/4 inside an argument), 1/2 with junk / a removed bracket / a cut at one position of a nested derivation, the rest from the grammar to depth 3 (a in [-4,4], b in [-6,6], all attribute operators with/without i, :not/:is/:has/:haschild, all combinators, pseudo-elements), one document in five with the boundary stream (escapes, comments, random damage => parse errors); corpus first; thorough adds the exhaustive small-bounds stream; non-trivial = some selector matches some but not all elements",
 }
 MANIFEST = {
-    "text": "Coq theorems over a line-by-line Gallina port of css/selector (every Match method, Specificity, the parser, String()): an+b with Go's truncating % and / equals 'exists n >= 0, i = a*n+b' for all integers, and the a = 0 fast paths equal the general path; on every tree satisfying the invariants of html.Parse (checked on each dumped tree) and every selector outside two proved deviations, the match function equals the Selectors-4 relational specification (type/universal/class/id/attribute operators with the i flag, the four combinators, :nth-*(an+b), :first/last/only-*, :root, :empty, :not/:is/:has, lists) at every node; specificity = (ids, classes+attributes+pseudo-classes, types+pseudo-elements) with the maximum over :is/:not/:has arguments, Less a strict total order; ParseGroup returns a group or an error for every byte string (no panic, terminates) and only returns normal-form groups; print/parse round trip proved on an explicit family of 20 526 selector groups. The port is compared with /repo on every run on generated documents x selectors: parse structure, match masks over all nodes, specificity, pseudo-element, String(), re-parse.",
+    "text": "Coq theorems over a line-by-line Gallina port of css/selector (every Match method, Specificity, the parser, String()): an+b with Go's truncating % and / equals 'exists n >= 0, i = a*n+b' for all integers, and the a = 0 fast paths equal the general path; on every tree satisfying the invariants of html.Parse (checked on each dumped tree) and every selector outside two proved deviations, the match function equals the Selectors-4 relational specification (type/universal/class/id/attribute operators with the i flag, the four combinators, :nth-*(an+b), :first/last/only-*, :root, :empty, :not/:is/:has, lists) at every node; specificity = (ids, classes+attributes+pseudo-classes, types+pseudo-elements) with the maximum over :is/:not/:has arguments, Less a strict total order; Less is not a positional weight in any base (and :is/:not/:has weigh as an argument no other argument exceeds, for columns of any size); ParseGroup returns a group or an error for every byte string (no panic, terminates), only returns normal-form groups and never a pseudo-element inside an :is/:not/:has argument at any depth; print/parse round trip proved on an explicit family of 20 526 selector groups. The port is compared with /repo on every run on generated documents x selectors: accept/reject and parse structure (also on every rejected input), match masks over all nodes, specificity, pseudo-element, String(), re-parse.",
     "note": "Trusted: Coq kernel (vm_compute), x/net/html (the tree it built is the model's input), the DataAtom abstraction (asserted per tree), ASCII-only case folding for the i flag, the Go harness + hook css/selector/verif_export_c05.go. Partial: the full match statement is refuted for :has() arguments containing a combinator and for [a^=v]/[a$=v]/[a*=v] on blank attribute values (C05_has_relative_refuted, C05_blank_attr_refuted; known findings, witnesses replayed on /repo each run); :lang/:link/:enabled/:disabled/:checked/:input are outside the property text (ported and compared; their specification is the port); the general print/parse round trip is a stated Definition, proved on the explicit family and evaluated by the tie on every parsed selector.",
     "technique": "Coq proof over executable model + vm_compute correspondence with the Go implementation",
 }
